@@ -8,15 +8,12 @@
    and -- what a destination of OViewAssign needs in order to be written exactly -- distinct positions are
    distinct cells.  So the hypotheses of the lifecycle theorems about views are not extra assumptions: they follow
    from C01's theorems. *)
-From BM Require Import Base.Tactics Model.Layout Model.View Model.Spec Model.Iter Model.Assign Model.Life
+From BM Require Import Base.Tactics Model.Layout Model.View Model.Spec Model.Iter Model.Assign Model.Life Model.LifeView
   Proofs.LayoutProofs Proofs.ViewProofs Proofs.ViewProofs2 Proofs.IterProofs Proofs.ElemProofs Proofs.C01Main
   Proofs.AssignProofs Proofs.InjProofs Proofs.PtrBoundsProofs Proofs.C05Main Proofs.LifeOps.
 Local Open Scope Z_scope.
 
-(* what ocaml/life_driver.ml view_src builds from a view *)
-Definition view_vsrc (v : view) : vsrc :=
-  mkvsrc (map (fun r : range => (fst r, snd r - fst r)) (l_extensions (lay v)))
-         (map (fun k => Z.to_nat (e_addr v k)) (iota (Z.to_nat (er_size v)))).
+(* view_vsrc (Model/LifeView.v): what ocaml/life_driver.ml view_src builds from a view -- the extracted function itself *)
 
 Lemma iota_length n : length (iota n) = n.
 Proof. induction n as [|n IH]; cbn; [reflexivity|]. rewrite app_length, IH. cbn. lia. Qed.
